@@ -1,117 +1,215 @@
 import TaskModel.Remote.Model
 import TaskModel.Remote.Chain
+import TaskModel.Remote.Tree
 import Driver.Util
 namespace Driver.Remote
 open TaskModel.Remote Driver
 
-/-- one step = 14 tokens:
-`dt url https yes download offline insecure expiry patient clear experiment serverKind serverArg answer` -/
-def parseStep : List String → Option Step
-  | [dt, u, https, yes, dl, off, ins, exp, pat, clr, xp, sk, sa, ans] => do
-    let dt ← dt.toNat?; let u ← u.toNat?; let https ← boolTok https
-    let yes ← boolTok yes; let dl ← boolTok dl; let off ← boolTok off; let ins ← boolTok ins
-    let exp ← exp.toNat?; let pat ← boolTok pat; let clr ← boolTok clr; let xp ← boolTok xp
-    let sa ← sa.toNat?
-    let server ← match sk with
-      | "0" => some (Server.serve sa)
-      | "1" => (match sa with
-        | 0 => some (Server.fail .refused) | 1 => some (Server.fail .notFound)
-        | 2 => some (Server.fail .getError) | _ => none)
-      | "2" => some (Server.slow sa)
-      | _ => none
-    let answer ← match ans with
-      | "0" => some Answer.accept | "1" => some Answer.decline | "2" => some Answer.noTerminal
-      | _ => none
-    some { dt, url := ⟨u, https⟩, server, answer,
-           flags := { yes, download := dl, offline := off, insecure := ins, expiry := exp,
-                      patient := pat, clearCache := clr, experiment := xp } }
+/-- a URL inside a server token: `<id>.<https>` -/
+def parseUrlTok (t : String) : Option Url :=
+  match t.splitOn "." with
+  | [i, h] => do let i ← i.toNat?; let h ← boolTok h; some ⟨i, h⟩
   | _ => none
 
-def parseSteps : Nat → List String → Option (List Step)
-  | 0, [] => some []
-  | 0, _ => none
-  | n+1, r => do
-    if r.length < 14 then none else
-    let st ← parseStep (r.take 14)
-    let rest ← parseSteps n (r.drop 14)
-    some (st :: rest)
-
-def showOpt : Option Nat → String
-  | some n => toString n
-  | none => "-"
-
-def showEntry (e : Entry) : String :=
-  showOpt e.content ++ "," ++ showOpt e.sum ++ "," ++ (if e.ts.isSome then "1" else "0")
-
-def showResult : RResult → String
-  | .run c => "run:" ++ toString c
-  | .cleared => "cleared"
-  | .error code => "err:" ++ toString code
-
-/-- `remote.run <nUrls> <nSteps> <step>*` (the repaired rule, `invoke`) and `remote.legacy …` (the
-rule as written) → per step `<result> <entry>{nUrls}`, steps separated by ` ; `; the checksum
-function is the identity on version numbers -/
-def doRun (legacy : Bool) : List String → Option String
-  | k :: n :: r => do
-    let k ← k.toNat?; let n ← n.toNat?
-    let steps ← parseSteps n r
-    let obs := observe legacy id k RState.init steps
-    some (" ; ".intercalate (obs.map fun (res, es) => " ".intercalate (showResult res :: es.map showEntry)))
+/-- the innermost server of a server token: `s<c>` serves content `c`, `w<c>` serves it slowly,
+`f<k>` fails (0 refused, 1 not found, 2 GET error) -/
+def parseBaseServer (t : String) : Option Server :=
+  match t.toList with
+  | 's' :: r => (String.ofList r).toNat?.map Server.serve
+  | 'w' :: r => (String.ofList r).toNat?.map Server.slow
+  | 'f' :: r =>
+    match (String.ofList r).toNat? with
+    | some 0 => some (Server.fail .refused)
+    | some 1 => some (Server.fail .notFound)
+    | some 2 => some (Server.fail .getError)
+    | _ => none
   | _ => none
 
-def parseServer (sk : String) (sa : Nat) : Option Server :=
-  match sk with
-  | "0" => some (Server.serve sa)
-  | "1" => (match sa with
-    | 0 => some (Server.fail .refused) | 1 => some (Server.fail .notFound)
-    | 2 => some (Server.fail .getError) | _ => none)
-  | "2" => some (Server.slow sa)
+/-- wrappers in front of it, outermost first: `r<id>.<https>` = redirect to that URL, `d<id>.<https>` =
+directory-style URL whose default name is that URL -/
+def wrapServer (w : String) (inner : Option Server) : Option Server := do
+  let sv ← inner
+  match w.toList with
+  | 'r' :: r => (parseUrlTok (String.ofList r)).map fun u => Server.redirect u sv
+  | 'd' :: r => (parseUrlTok (String.ofList r)).map fun u => Server.dir u sv
   | _ => none
+
+/-- a server token: wrappers and the innermost server, separated by `:` (`r13.0:s5`) -/
+def parseServerTok (t : String) : Option Server :=
+  match (t.splitOn ":").reverse with
+  | [] => none
+  | b :: ws => ws.foldl (fun acc w => wrapServer w acc) (parseBaseServer b)
 
 def parseAnswer : String → Option Answer
   | "0" => some Answer.accept | "1" => some Answer.decline | "2" => some Answer.noTerminal
   | _ => none
 
-/-- one chain step = the 14 tokens of a step (node 1) + `server2Kind server2Arg answer2` (node 2) -/
-def parseCSteps : Nat → List String → Option (List CStep)
+/-- one step = 13 tokens:
+`dt url https yes download offline insecure expiry patient clear experiment server answer` -/
+def parseStep : List String → Option Step
+  | [dt, u, https, yes, dl, off, ins, exp, pat, clr, xp, sv, ans] => do
+    let dt ← dt.toNat?; let u ← u.toNat?; let https ← boolTok https
+    let yes ← boolTok yes; let dl ← boolTok dl; let off ← boolTok off; let ins ← boolTok ins
+    let exp ← exp.toNat?; let pat ← boolTok pat; let clr ← boolTok clr; let xp ← boolTok xp
+    let server ← parseServerTok sv
+    let answer ← parseAnswer ans
+    some { dt, url := ⟨u, https⟩, server, answer,
+           flags := { yes, download := dl, offline := off, insecure := ins, expiry := exp,
+                      patient := pat, clearCache := clr, experiment := xp } }
+  | _ => none
+
+/-- what happens to the cache before a step, the first 3 of the 4 tokens `kind url arg lim`: `0` nothing; `1` the `.yaml` of the
+URL is replaced by content `arg` (`0` = truncated to nothing); `2` it is removed; `3` an invocation
+`--yes --download --insecure` that downloads content `arg` of the URL is killed after `WriteChecksum`;
+`4` … after `WriteTimestamp`; `5` … after `WriteResolvedLocation`.  `lim` = `1`: the step itself runs under a
+file-size limit that lets every cache write through but the last (`LEv.limited`; op `remote.run` only). -/
+def parsePre : List String → Option (List Pre)
+  | [k, u, a] => do
+    let u ← u.toNat?; let a ← a.toNat?
+    let fl : RFlags := { yes := true, download := true, offline := false, insecure := true, expiry := 0,
+                         patient := true, clearCache := false, experiment := true }
+    let crashSt : Step := ⟨0, ⟨u, true⟩, fl, Server.serve a, Answer.noTerminal⟩
+    match k with
+    | "0" => some []
+    | "1" => some [.damage u (some a)]
+    | "2" => some [.damage u none]
+    | "3" => some [.crash crashSt 1]
+    | "4" => some [.crash crashSt 2]
+    | "5" => some [.crash crashSt 3]
+    | _ => none
+  | _ => none
+
+def parseEvs : Nat → List String → Option (List LEv)
   | 0, [] => some []
   | 0, _ => none
   | n+1, r => do
     if r.length < 17 then none else
-    let base ← parseStep (r.take 14)
-    match (r.drop 14).take 3 with
-    | [sk, sa, ans] =>
-      let sa ← sa.toNat?
-      let server ← parseServer sk sa
+    let st ← parseStep (r.take 13)
+    let pre ← parsePre ((r.drop 13).take 3)
+    let lim ← (r.drop 16).head? >>= boolTok
+    let rest ← parseEvs n (r.drop 17)
+    some (pre.map (fun p => LEv.ev (.pre p)) ++ (if lim then LEv.limited st else LEv.ev (.step st)) :: rest)
+
+def showOpt : Option Nat → String
+  | some n => toString n
+  | none => "-"
+
+/-- `<content>,<checksum>,<timestamp present>` and, when the copy was found somewhere else than at the
+URL itself (a default name under a directory-style URL), `@<id of that URL>` -/
+def showEntry (i : Nat) (e : Entry) : String :=
+  showOpt e.content ++ "," ++ showOpt e.sum ++ "," ++ (if e.ts.isSome then "1" else "0") ++
+    (match e.loc with
+     | some r => if r.id = i then "" else "@" ++ toString r.id
+     | none => "")
+
+def showEntries (es : List Entry) : List String :=
+  (es.zip (List.range es.length)).map fun (e, i) => showEntry i e
+
+/-- the result as the harness reads it off the real binary: from the exit status and the trace file alone -/
+def showOutcome (exit : Nat) (trace : List Content) : String :=
+  let ran := "+".intercalate (trace.map toString)
+  if exit = 0 then (if trace.isEmpty then "cleared" else "run:" ++ ran)
+  else if trace.isEmpty then "err:" ++ toString exit
+  else "err:" ++ toString exit ++ "+ran:" ++ ran
+
+def showResult (r : RResult) : String := showOutcome r.exit r.trace
+
+/-- `remote.run <nUrls> <nSteps> <step+pre>*` (the repaired rule, `invoke`) and `remote.legacy …` (the
+F16 rule as written) → per step `<result> <entry>{nUrls}`, steps separated by ` ; `; the checksum
+function is the identity on version numbers -/
+def doRun (legacy : Bool) : List String → Option String
+  | k :: n :: r => do
+    let k ← k.toNat?; let n ← n.toNat?
+    let evs ← parseEvs n r
+    let obs := observeL legacy id k RState.init evs
+    some (" ; ".intercalate (obs.map fun (res, es) => " ".intercalate (showResult res :: showEntries es)))
+  | _ => none
+
+/-- one chain step = the 13 tokens of a step (node 1) + `server2 answer2` (node 2) + the 4 tokens of `pre` (`lim` = 0) -/
+def parseCEvs : Nat → List String → Option (List CEv)
+  | 0, [] => some []
+  | 0, _ => none
+  | n+1, r => do
+    if r.length < 19 then none else
+    let base ← parseStep (r.take 13)
+    match (r.drop 13).take 2 with
+    | [sv, ans] =>
+      let server ← parseServerTok sv
       let answer ← parseAnswer ans
-      let rest ← parseCSteps n (r.drop 17)
-      some (⟨base, ⟨server, answer⟩⟩ :: rest)
+      let pre ← parsePre ((r.drop 15).take 3)
+      let rest ← parseCEvs n (r.drop 19)
+      some (pre.map CEv.pre ++ CEv.step ⟨base, ⟨server, answer⟩⟩ :: rest)
     | _ => none
 
 /-- the harness's content numbering: `c = v + 10·k`; `k = 0`: includes nothing; `k = 1, 3`: includes
 URL 0 (http `/aa`, by a relative / an absolute reference); `k = 2, 4`: includes URL 1 (http `/bb`);
-`k = 5, 6`: includes URL 3 (URL 0 with the query `?v=2`) -/
-def incOf (c : Content) : Option Url :=
+`k = 5, 6`: includes URL 3 (URL 0 with the query `?v=2`) — the relative references of these (`../aa/…`)
+resolve to the same URL from every place the harness serves them at; `k = 7`: includes `./inc.yml`,
+which from a default name under the directory-style URL 7 (`/dd/Taskfile.yml` = URL 10, `/dd/taskfile.yml`
+= 11, `/dd/Taskfile.yaml` = 12) is URL 8 (`/dd/inc.yml`), but from URL 7 itself (`/dd`) is URL 9
+(`/inc.yml`); `k = 8`: includes URL 8 by an absolute reference -/
+def incOf (c : Content) (b : Url) : Option Url :=
   match c / 10 with
   | 1 => some ⟨0, false⟩ | 3 => some ⟨0, false⟩
   | 2 => some ⟨1, false⟩ | 4 => some ⟨1, false⟩
   | 5 => some ⟨3, false⟩ | 6 => some ⟨3, false⟩
+  | 7 => if b.id = 10 ∨ b.id = 11 ∨ b.id = 12 then some ⟨8, false⟩
+         else if b.id = 7 then some ⟨9, false⟩ else none
+  | 8 => some ⟨8, false⟩
   | _ => none
 
-def showCResult : CResult → String
-  | .run c1 none => "run:" ++ toString c1
-  | .run c1 (some c2) => "run:" ++ toString c1 ++ "+" ++ toString c2
-  | .cleared => "cleared"
-  | .error code => "err:" ++ toString code
+def showCResult (r : CResult) : String := showOutcome r.exit r.trace
 
-/-- `remote.chain <nUrls> <nSteps> <cstep>*` → per step `<result> <entry>{nUrls}` (`Chain.invokeChain`,
+/-- `remote.chain <nUrls> <nSteps> <cstep+pre>*` → per step `<result> <entry>{nUrls}` (`Chain.invokeChain`,
 `sha` = identity, `inc` = `incOf`) -/
 def doChain : List String → Option String
   | k :: n :: r => do
     let k ← k.toNat?; let n ← n.toNat?
-    let steps ← parseCSteps n r
-    let obs := observeChain false id incOf k RState.init steps
-    some (" ; ".intercalate (obs.map fun (res, es) => " ".intercalate (showCResult res :: es.map showEntry)))
+    let evs ← parseCEvs n r
+    let obs := observeChain false id incOf k RState.init evs
+    some (" ; ".intercalate (obs.map fun (res, es) => " ".intercalate (showCResult res :: showEntries es)))
+  | _ => none
+
+/-- the tree stream's includes: `k = 9`: URL 1 and URL 3 (siblings); everything else as `incOf` -/
+def incTree (c : Content) (b : Url) : List Url :=
+  if c / 10 = 9 then [⟨1, false⟩, ⟨3, false⟩] else (incOf c b).toList
+
+/-- one tree step = the 13 tokens of a step (node A, its URL's server and answer) + `serverB answerB serverC answerC`
+(URLs 1 and 3) + `pick` (the exit status the binary ended with) + the 4 tokens of `pre` (`lim` = 0) -/
+def parseTEvs : Nat → List String → Option (List TEv)
+  | 0, [] => some []
+  | 0, _ => none
+  | n+1, r => do
+    if r.length < 22 then none else
+    let base ← parseStep (r.take 13)
+    match (r.drop 13).take 5 with
+    | [svB, ansB, svC, ansC, pick] =>
+      let serverB ← parseServerTok svB
+      let answerB ← parseAnswer ansB
+      let serverC ← parseServerTok svC
+      let answerC ← parseAnswer ansC
+      let pick ← pick.toNat?
+      let pre ← parsePre ((r.drop 18).take 3)
+      let rest ← parseTEvs n (r.drop 22)
+      let st : TStep := ⟨base.dt, base.url, base.flags,
+        [(base.url.id, ⟨base.server, base.answer⟩), (1, ⟨serverB, answerB⟩), (3, ⟨serverC, answerC⟩)], pick⟩
+      some (pre.map TEv.pre ++ TEv.step st :: rest)
+    | _ => none
+
+def showTResult (r : TResult) : String :=
+  let ran := "+".intercalate (r.trace.map fun (u, c) => toString c ++ "u" ++ toString u)
+  if r.exit = 0 then (if r.trace.isEmpty then "cleared" else "run:" ++ ran)
+  else if r.trace.isEmpty then "err:" ++ toString r.exit
+  else "err:" ++ toString r.exit ++ "+ran:" ++ ran
+
+/-- `remote.tree <nUrls> <nSteps> <tstep+pre>*` → per step `<result> <entry>{nUrls}` (`Tree.invokeTree`,
+`sha` = identity, `inc` = `incTree`) -/
+def doTree : List String → Option String
+  | k :: n :: r => do
+    let k ← k.toNat?; let n ← n.toNat?
+    let evs ← parseTEvs n r
+    let obs := observeTree false id incTree k RState.init evs
+    some (" ; ".intercalate (obs.map fun (res, es) => " ".intercalate (showTResult res :: showEntries es)))
   | _ => none
 
 def handle (op : String) (args : List String) : Option String :=
@@ -119,6 +217,7 @@ def handle (op : String) (args : List String) : Option String :=
   | "remote.run" => doRun false args
   | "remote.legacy" => doRun true args
   | "remote.chain" => doChain args
+  | "remote.tree" => doTree args
   | _ => none
 
 end Driver.Remote
